@@ -51,20 +51,21 @@ Open Scope nat_scope.
 Definition rstep (orig idx : nat) (val : item) (st : list item * nat * nat) : list item * nat * nat :=
   let '(live, ni, nd) := st in
   if (idx <? orig) then
-    if is_local val then
+    (* a deleted item is dropped whatever its kind (is_deleted is tested first since the repair of D06 / D26) *)
+    if it_del val then (remove_at (idx - nd) live, (ni - 1), (nd + 1))
+    else if is_local val then
       match nth_error live (idx - nd) with
       | Some f => (remove_at (idx - nd) live ++ [f], (ni - 1), (nd + 1))
       | None => st
       end
-    else if it_del val then (remove_at (idx - nd) live, (ni - 1), (nd + 1))
     else st
   else
-    if is_import val then
+    if it_del val then (remove_at (idx - nd) live, ni, (nd + 1))
+    else if is_import val then
       match nth_error live (idx - nd) with
       | Some i => (insert_at ni i (remove_at (idx - nd) live), (ni + 1), nd)
       | None => st
       end
-    else if it_del val then (remove_at (idx - nd) live, ni, (nd + 1))
     else st.
 Fixpoint rloop (orig idx : nat) (snap : list item) (st : list item * nat * nat) :=
   match snap with
